@@ -316,7 +316,7 @@ def oracle_c07(case, out, raw):
         return [("panic", "analysis panicked at %s: %s" % ((raw or {}).get("site"), (raw or {}).get("panic")))]
     ds = []
     key_of_path = {t["path"]: (t["pkg"], t["name"]) for t in case["truth"]}
-    seen_full, seen_ident, seen_bs = {}, {}, {}
+    seen_full, seen_ident, seen_bs, seen_bsproj = {}, {}, {}, {}
     for ri, (run, res) in enumerate(zip(case["runs"], out["runs"])):
         for p in set(run):
             reps = run.count(p)
@@ -333,17 +333,18 @@ def oracle_c07(case, out, raw):
                 elif seen_full[p][1] != txt:
                     ds.append(("c07-full-entry-differs", "model entries of %s differ between run %d %s and run %d %s: %s" % (
                         p, seen_full[p][0], case["runs"][seen_full[p][0]], ri, run, first_diff(json.loads(seen_full[p][1]), ch))))
-            # bad-smell entries of the file, per run position
+            # what the bad-smell pass produced for the file (its node) and the findings that name it, per run position
             for pos, q in enumerate(run):
                 if q != p or not isinstance(res.get("bs"), list) or pos >= len(res["bs"]):
                     continue
-                txt = json.dumps(sorted(res["bs"][pos], key=lambda f: json.dumps(f, sort_keys=True)), sort_keys=True)
+                ent = res["bs"][pos]
+                fnd = sorted(ent.get("Findings") or [], key=lambda f: json.dumps(f, sort_keys=True))
+                txt = json.dumps({"node": ent.get("Node"), "findings": fnd}, sort_keys=True)
                 if p not in seen_bs:
                     seen_bs[p] = (ri, txt)
                 elif seen_bs[p][1] != txt:
-                    ds.append(("c07-bs-entry-differs", "bad-smell entries of %s differ between run %d %s and run %d %s: %s vs %s" % (
-                        p, seen_bs[p][0], case["runs"][seen_bs[p][0]], ri, run,
-                        [(f["Bs"], f["Line"]) for f in json.loads(seen_bs[p][1])], [(f["Bs"], f["Line"]) for f in json.loads(txt)])))
+                    ds.append(("c07-bs-entry-differs", "bad-smell entry of %s differs between run %d %s and run %d %s: %s" % (
+                        p, seen_bs[p][0], case["runs"][seen_bs[p][0]], ri, run, first_diff(json.loads(seen_bs[p][1]), json.loads(txt)))))
             k = key_of_path.get(p)
             idm = [n for n in res.get("identifiers", []) if (n["Package"], n["NodeName"]) == k]
             if idm and len(idm) % reps == 0:
